@@ -107,6 +107,8 @@ def make_source(name):
         d = base(7)
         d.index = pd.Index(np.arange(7, dtype="int64"))
         return dx.from_pandas(d, npartitions=3)
+    if name == "from_pandas_12":
+        return dx.from_pandas(base(24), npartitions=12)
     if name == "from_pandas_one":
         return dx.from_pandas(pdf, npartitions=1)
     if name == "from_pandas_dupidx":
@@ -182,6 +184,7 @@ CHAINS = {
     "repart7": (lambda x: x.repartition(npartitions=7), False, False),
     "shuffle_tasks": (lambda x: x.shuffle("b", shuffle_method="tasks"), True, False),
     "shuffle_tasks_mb2": (lambda x: x.shuffle("b", npartitions=5, shuffle_method="tasks", max_branch=2), True, False),
+    "shuffle_tasks_up_mb2": (lambda x: x.shuffle("b", npartitions=8, shuffle_method="tasks", max_branch=2), True, False),
     "shuffle_disk": (lambda x: x.shuffle("b", shuffle_method="disk"), True, False),
     "shuffle_add1": (lambda x: x.shuffle("b", shuffle_method="tasks") + 1, True, False),
     "bjoin": (lambda x: x.merge(_small_coll(), on="b", broadcast=True, shuffle_method="tasks"), True, False),
@@ -441,7 +444,7 @@ _MECHANISM = {"id": None, "assign_series": "elemwise-series-operand", "mul_axis0
               "where_series": "elemwise-series-operand", "add1": "elemwise", "filter": "filter", "col_a": "projection", "bcast_assign": "broadcast-operand",
               "bcast_series": "broadcast-operand", "bcast_where": "broadcast-operand", "mappart": "map_partitions",
               "mappart_bcast": "broadcast-operand", "add1_filter_proj": "elemwise", "repart3": "repartition", "repart7": "repartition",
-              "shuffle_tasks": "shuffle", "shuffle_tasks_mb2": "shuffle", "shuffle_disk": "shuffle", "shuffle_add1": "shuffle",
+              "shuffle_tasks": "shuffle", "shuffle_tasks_mb2": "shuffle", "shuffle_tasks_up_mb2": "shuffle", "shuffle_disk": "shuffle", "shuffle_add1": "shuffle",
               "bjoin": "broadcast-join", "bjoin_left": "broadcast-join", "sort_a": "sort", "sort_a_desc": "sort", "set_index_a": "set_index"}
 
 
@@ -468,7 +471,7 @@ def _signature(case, what):
 _CORE_CHAINS = ["id", "add1", "filter", "col_a", "bcast_assign", "bcast_series", "mappart_bcast", "assign_series", "mul_axis0"]
 _HEAVY_CHAINS = [c for c in CHAINS if c not in _CORE_CHAINS]
 _HEAVY_SOURCES = ["from_pandas", "from_map", "from_array", "read_parquet_div"]
-_EXTRA_SOURCES = ["from_pandas_dense7"]  # only used by MUST_RUN / replay
+_EXTRA_SOURCES = ["from_pandas_dense7", "from_pandas_12"]  # only used by MUST_RUN / replay
 
 
 def all_cases(ctx, broken=()):
@@ -499,6 +502,19 @@ MUST_RUN = [
     {"source": "from_pandas_dense7", "chain": "repart7", "sel": {"kind": "to_delayed", "optimize": True}},  # D14
     {"source": "from_pandas_dense7", "chain": "repart7", "sel": {"kind": "partitions", "P": [5]}},          # D14
     {"source": "from_pandas", "chain": "shuffle_tasks", "sel": {"kind": "tail", "n": 2}},                 # D22
+    {"source": "from_pandas", "chain": "bcast_series", "sel": {"kind": "tail", "n": 2}},                  # D64 (tail, scalar operand)
+    {"source": "from_pandas_one", "chain": "mul_axis0", "sel": {"kind": "head", "n": 2, "k": 1}},         # D64 (ambiguous operand)
+    {"source": "from_pandas_one", "chain": "mul_axis0", "sel": {"kind": "tail", "n": 2}},
+    {"source": "from_pandas_dupidx_one", "chain": "assign_series", "sel": {"kind": "head", "n": 2, "k": 1}},
+    {"source": "from_pandas", "chain": "mul_axis0", "sel": {"kind": "nested_head", "n1": 7, "k1": 2, "n2": 6}},
+    # staged task shuffle that increases the partition count, selection that is not a prefix
+    {"source": "from_pandas", "chain": "shuffle_tasks_up_mb2", "sel": {"kind": "partitions", "P": [2, 3, 4, 5, 6]}},
+    {"source": "from_pandas", "chain": "shuffle_tasks_up_mb2", "sel": {"kind": "partitions", "P": [7, 0, 3, 1]}},
+    # sorted head/tail over more partitions than split_every (tree reduction with a combine level)
+    {"source": "from_pandas_12", "chain": "sort_a", "sel": {"kind": "tail", "n": 3}},
+    {"source": "from_pandas_12", "chain": "sort_a", "sel": {"kind": "head", "n": 3, "k": 1}},
+    {"source": "from_pandas_12", "chain": "set_index_a", "sel": {"kind": "tail", "n": 3}},
+    {"source": "from_pandas_12", "chain": "sort_a_desc", "sel": {"kind": "tail", "n": 3}},
 ]
 
 
@@ -1067,8 +1083,13 @@ def _elemwise_exprs():
             "to_frame": s.to_frame(),
         }
         for nm, c in cands.items():
-            if c is not None:
-                out.append((f"{nm}[np={k}]", c.expr))
+            if c is None:
+                continue
+            try:
+                c.expr.npartitions
+            except AssertionError:
+                continue  # open finding D28: a scalar-first binary operation has no divisions at all
+            out.append((f"{nm}[np={k}]", c.expr))
     return out
 
 
@@ -1294,6 +1315,12 @@ def fam_sort_rules(ctx):
         ins.append({"rule": "SetIndex._simplify_up[Tail]"})
         got.append((type(r).__name__, type(r.frame).__name__, r.frame.n, r.frame.operand("_columns"), r.frame.ascending))
         want.append(("SetIndex", "NLast", 3, "a", True))
+    # the tree reduction: chunk, combine and aggregate are all "sort, take n" of the same direction (C11_sorted_head_tree)
+    for cls, fn in ((NFirst, "_nfirst"), (NLast, "_nlast")):
+        comb = cls.reduction_combine or cls.reduction_aggregate or cls.reduction_chunk
+        ins.append({"rule": f"{cls.__name__} chunk/combine/aggregate"})
+        got.append((cls.reduction_chunk.__name__, comb.__name__, cls.reduction_aggregate.__name__))
+        want.append((fn, fn, fn))
     f.compare(ins, [repr(g) for g in got], [repr(w) for w in want])
     f.note = "model side = the rule as C11_sorted_head reads it: NFirst/NLast of the sort's input with the head's n, the sort key and direction (npartitions of the head is not used)"
     return f
